@@ -59,7 +59,7 @@ def err_sources(f):
 
 def C09_1(ctx, facts):
     impls = accept_impls(facts)
-    extra = [facts.method("stream::duplex::DuplexIncoming", "Stream", "poll_next")]
+    extra = [facts.unit(facts.method("stream::duplex::DuplexIncoming", "Stream", "poll_next"))]
     want = 6 if ctx.cur_config in ("tls", "mocks", "aws") else 5
     ctx.floor("Accept-impls", len(impls), want, "impls of Accept::poll_accept")
     for f in impls + extra:
@@ -94,7 +94,7 @@ def C09_1(ctx, facts):
 
 
 def C09_2(ctx, facts):
-    po = facts.fn("server::Serving::poll_once")
+    po = facts.unit(facts.fn("server::Serving::poll_once"))
     ctx.touched(po)
     allowed = re.compile(r"MakeServiceRef::poll_ready_ref$|Accept::poll_accept$|Future::poll$")
     n = 0
@@ -127,7 +127,7 @@ def C09_3(ctx, facts):
             if it["name"] == "Output":
                 out = it.get("ty")
     ctx.check(out == "()", "ConnectionDriver|Output-unit", "<ConnectionDriver as Future>::Output = (): a connection's error cannot travel to the server", "ConnectionDriver::Output is %s" % out)
-    f = facts.method("server::conn::drivers::ConnectionDriver", "Future", "poll")
+    f = facts.unit(facts.method("server::conn::drivers::ConnectionDriver", "Future", "poll"))
     ctx.touched(f)
     readys = [b for (b, i, s) in f.aggregates("Poll", "Ready")]
     polls = [c for c in f.calls() if norm(c.decl or c.name).endswith("::poll")]
@@ -152,10 +152,10 @@ def C09_3(ctx, facts):
 
 
 def C09_4(ctx, facts):
-    po = facts.fn("server::Serving::poll_once")
+    po = facts.unit(facts.fn("server::Serving::poll_once"))
     serve = [c for c in po.calls() if norm(c.decl or c.name).endswith("serve_connection_with_upgrades")]
     ctx.floor("Serving::poll_once|serve", len(serve), 1, "serve_connection_with_upgrades in poll_once")
-    for f, nm in ((po, "poll_once"), (facts.method("server::Serving", "Future", "poll"), "Serving::poll"), (facts.method("server::GracefulShutdown", "Future", "poll"), "GracefulShutdown::poll")):
+    for f, nm in ((po, "poll_once"), (facts.unit(facts.method("server::Serving", "Future", "poll")), "Serving::poll"), (facts.unit(facts.method("server::GracefulShutdown", "Future", "poll")), "GracefulShutdown::poll")):
         bad = []
         for c in f.calls():
             if not norm(c.decl or c.name).endswith("::poll"):
@@ -165,7 +165,7 @@ def C09_4(ctx, facts):
             if "Protocol<" in ty and "Connection" in ty or "Instrumented<" in ty or any(r.kind == "call" and "serve_connection" in norm(r.site.name) for r in rr):
                 bad.append(c)
         ctx.check(not bad, "%s|no-inline-poll" % nm, "the accept loop never polls a connection itself", "a connection is polled inline by the accept loop", bad[0].where() if bad else None)
-    sp = facts.method("server::Serving", "Future", "poll")
+    sp = facts.unit(facts.method("server::Serving", "Future", "poll"))
     ctx.touched(sp)
     execs = [c for c in sp.calls() if norm(c.decl or c.name).endswith("Executor::execute")]
     news = sp.calls("server::conn::drivers::ConnectionDriver::new")
@@ -214,11 +214,11 @@ def C09_5(ctx, facts):
     ctx.check(not bad, "accept-path|no-handshake", "no TLS handshake / stream I/O is reachable from any poll_accept (%d functions examined)" % len(seen),
               "the accept path performs a handshake: %s" % [(g.nkey, why) for (g, c, why) in bad[:3]], bad[0][1].where() if bad else None)
     if ctx.cur_config in ("tls", "mocks", "aws"):
-        ta = facts.method("server::conn::tls::acceptor::TlsAcceptor", "Accept", "poll_accept")
+        ta = facts.unit(facts.method("server::conn::tls::acceptor::TlsAcceptor", "Accept", "poll_accept"))
         acc = [c for c in ta.calls() if norm(c.name).endswith("TlsAcceptor::accept")]
         ctx.check(len(acc) == 1, "TlsAcceptor::poll_accept|lazy", "TlsAcceptor::poll_accept only creates the tokio_rustls Accept future and returns it unpolled inside TlsStream",
                   "TlsAcceptor::poll_accept does not create exactly one Accept future")
-        hs = facts.fn("server::conn::tls::TlsStream::handshake")
+        hs = facts.unit(facts.fn("server::conn::tls::TlsStream::handshake"))
         polls = [c for c in hs.calls() if norm(c.decl or c.name).endswith("::poll") and "tokio_rustls::Accept<" in " ".join(c.t.get("argtys") or [])]
         ctx.check(len(polls) >= 1, "TlsStream::handshake|drives-accept", "the handshake is driven from TlsStream::handshake (inside the connection task)",
                   "TlsStream::handshake does not poll the Accept future")
@@ -276,7 +276,7 @@ def _guard_unix_remote_some(facts, s):
             hops += 1
         if not (d is not None and d[0] == "stmt" and d[3]["r"]["k"] == "agg" and d[3]["r"].get("v") == "Some"):
             return False, "the unix acceptor can build a stream without a stored remote address (remote is not a literal Some(..)): info() would fall back to a socket lookup that fails for a non-UTF-8 peer path"
-    pa = facts.fn("stream::unix::UnixStream::peer_addr")
+    pa = facts.unit(facts.fn("stream::unix::UnixStream::peer_addr"))
     rem = lambda rr: any(r.kind == "arg" and r.desc.endswith("remote") for r in rr)
     for c in pa.calls():
         if c.matches(r"Clone.*::clone$"):
@@ -292,7 +292,7 @@ def accept_entries(facts):
     for k in (("server::Serving", "Future", "poll"), ("server::GracefulShutdown", "Future", "poll"), ("server::conn::drivers::ConnectionDriver", "Future", "poll"),
               ("server::conn::drivers::GracefulConnectionDriver", "Future", "poll"), ("stream::duplex::DuplexIncoming", "Stream", "poll_next")):
         keys.append(facts.method(*k).key)
-    keys.append(facts.fn("server::Serving::poll_once").key)
+    keys.append(facts.unit(facts.fn("server::Serving::poll_once")).key)
     return keys
 
 
